@@ -256,8 +256,11 @@ def check_case(case, ctx, pytrs):
                     and whole['qqs'] == sum((p['qqs'] for p in ps), []))
 
         diag = {}
-        no_all = [e for e in elements if e[0] != 'ALL']
-        has_all = len(no_all) < len(elements) and len(elements) > 1
+        # the recorded mechanism concerns an ALL that something follows;
+        # an ALL that ends the description stays in the counterfactual
+        no_all = [e for i, e in enumerate(elements)
+                  if not (e[0] == 'ALL' and i < len(elements) - 1)]
+        has_all = len(no_all) < len(elements)
         bare = sep == '\n' and any(
             k in ('aliq', 'ALL', 'lotdiv') for k in kinds[:-1])
         if bare:
@@ -314,8 +317,9 @@ def classify(v):
     """
     D20  'bare-linebreak-after-aliquot-fuses': the law holds again once the
          bare line breaks that directly follow an aliquot chain get a comma;
-    ALL  'ALL-not-last-element': it holds again once the ALL elements are
-         removed (ALL is only recognised when nothing follows it);
+    ALL  'ALL-not-last-element': it holds again once the ALL elements that
+         something follows are removed (ALL is only recognised when nothing
+         follows it; an ALL that ends the description is kept);
     both ids when only the two changes together restore it.
     """
     if not v['kind'].startswith('not-compositional'):
